@@ -89,6 +89,9 @@ type Op struct {
 	// first thing the new instance sees is a write (a store that only looks at the database lazily, or
 	// keeps state in memory, must still honour what is persisted)
 	Blind bool `json:"blind,omitempty"`
+	// ReadFaults > 0 (crash-injection database only): the first ReadFaults reads the write issues fail with an
+	// I/O error: the write then fails and changes nothing, or succeeds and is complete.
+	ReadFaults int `json:"read_faults,omitempty"`
 }
 
 // heightOf resolves the height a save / setheight step refers to.
